@@ -171,17 +171,23 @@ def degreeCleanLoop : Nat → Curve → Rat → Curve
 /-- `Curve.degree_clean(tolerance)` -/
 def degreeClean (c : Curve) (tol : Rat) : Curve := degreeCleanLoop (c.kv.deg + 1) c tol
 
-/-- `Curve.clean(tolerance)`; the rational → polynomial step is modelled for constant weights
-(where the code's quadrature is exact); other weight patterns leave the curve rational. -/
-def clean (c : Curve) (tol : Rat) : Curve :=
-  let c1 := knotClean (degreeClean c tol) none tol
-  match c1.W with
-  | none => c1
-  | some ws =>
-    match ws with
-    | [] => c1
-    | w0 :: _ =>
-      if ws.all (· == w0) then knotClean (degreeClean { c1 with W := none } tol) none tol else c1
+/-- `Curve.clean(tolerance)`: degree_clean, knot_clean, then the rational → polynomial attempt:
+`func2func(kv, weights, kv, ones)` with the same exact quadrature as the code, the curve becomes a
+spline when `max(max|PᵀEP|, WᵀEW) < tolerance` (and is cleaned again). -/
+def cleanLoop : Nat → Curve → Rat → Curve
+  | 0, c, _ => c
+  | f + 1, c, tol =>
+    let c1 := knotClean (degreeClean c tol) none tol
+    match c1.W, c1.P with
+    | some ws, some pts =>
+      match func2func c1.kv (some ws) c1.kv (some (List.replicate c1.npts 1)) none with
+      | .ok (T, E) =>
+        let err := rmax (quadFormMax E pts) (dot ws (matVec E ws))
+        if err < tol then cleanLoop f ⟨c1.kv, some (matPts T pts), none⟩ tol else c1
+      | .error _ => c1
+    | _, _ => c1
+
+def clean (c : Curve) (tol : Rat) : Curve := cleanLoop 3 c tol
 
 /-- `Curve.split(nodes)` -/
 def split (c : Curve) (nodes : Option (List Rat)) : Except Err (List Curve) := do
